@@ -452,6 +452,7 @@ class Eval:
         "branch": "<Result<T,E> as Try>::branch: Ok(v)->Continue(v) (discr 0), Err(e)->Break(Err(e)) (discr 1)",
         "from": "<uN as From<uM>>::from = zero extension (M < N)",
         "from_nanos": "core::time::Duration::from_nanos(n): Duration of exactly n ns (injective constructor)",
+        "duration_accessors": "Duration::{subsec_nanos, as_secs, subsec_micros, subsec_millis, as_micros, as_millis} are defined from as_nanos by div/mod with 10^9, 10^6, 10^3",
     }
 
     def __init__(self, fn, consts, stable=None, mem=None, tag=""):
@@ -661,7 +662,11 @@ class Eval:
         f, args = st["func"], [self.operand(a) if a[0] != "use" or True else None for a in st["args"]]
         dty = self.dest_type(st["dest"])
         res = None
-        if f == "core::time::Duration::as_nanos" and len(args) == 1 and args[0][0] == "ref":
+        DUR = {"as_nanos": None, "subsec_nanos": ("urem", 10**9, None, 32), "as_secs": ("udiv", 10**9, None, 64),
+               "subsec_micros": ("urem", 10**9, 10**3, 32), "subsec_millis": ("urem", 10**9, 10**6, 32),
+               "as_micros": ("udiv", 10**3, None, 128), "as_millis": ("udiv", 10**6, None, 128)}
+        dm = re.match(r"^core::time::Duration::(\w+)$", f)
+        if dm and dm.group(1) in DUR and len(args) == 1 and args[0][0] == "ref":
             root, projs = args[0][1]
             if root[0] == "local":
                 if projs:
@@ -679,6 +684,16 @@ class Eval:
                 self.inputs[key] = {"width": 128, "desc": "Duration::as_nanos of " + self.name_of(d), "max": AS_NANOS_MAX}
             res = ("s", key, 128)
             self.axioms_used.add("as_nanos")
+            spec = DUR[dm.group(1)]
+            if spec is not None:
+                # every other accessor is defined from the total nanosecond count
+                op1, k1, k2, w = spec
+                res = ("op", op1, 128, res, ("c", 128, k1))
+                if k2 is not None:
+                    res = ("op", "udiv", 128, res, ("c", 128, k2))
+                if w < 128:
+                    res = ("trunc", res, w)
+                self.axioms_used.add("duration_accessors")
         else:
             m = re.match(r"^<(u\d+|usize) as TryFrom<(u\d+|usize)>>::try_from$", f)
             if m and len(args) == 1 and twidth(args[0]) == INT_W[m.group(2)]:
